@@ -28,7 +28,7 @@ RULE = (
     "histories of up to 30 ops over {start_travel(x), up, down, stop, update_position(x), set_position(x), query, clock advance} "
     "on a TravelCalculator, and of Cover API calls / incoming telegrams (position reports, up/down, stop, step, target position) on a Cover; "
     "clock advances from {0, 1e-7, k/8 of the remaining travel time, k/8 of the up / down time for the distance, exactly the end instant +-1 ulp, "
-    "one position step, beyond}; travel times 0.5..300 s asymmetric; clock base 0, 1000 or 1.7e9; "
+    "one position step, beyond}; travel times 0.5..300 s asymmetric; clock base 0, 1000 or 1.7e9; optional clock tick between the readings of one query; "
     "non-trivial = at least one query strictly inside a running travel (0 < elapsed < required); distinct by (times, base, ops)"
 )
 LEVEL_TEXT = (
@@ -41,7 +41,8 @@ LEVEL_NOTE = (
     "The clock is the module attribute xknx.devices.travelcalculator.time replaced by a generated float clock; comparisons of elapsed "
     "time allow 2^-44 relative slack for the float arithmetic of the code under test. Below a Cover the model follows the calculator "
     "calls the Cover actually makes (the Cover is a realistic driver, not modelled itself); timers of the Cover (auto-stop, periodic "
-    "callback) never fire because no real time passes."
+    "callback) never fire: the Cover histories run on the virtual-time loop and only yield with sleep(0). While a stand-alone query runs the clock may "
+    "move on between the readings taken inside it (tick 0, 1e-7, 1e-3 or 0.3 s); commands see one reading."
 )
 ASSUMPTIONS = [
     "position range 0..100 (position_closed = 100), positions in commands and reports are ints 0..100",
